@@ -239,3 +239,82 @@ Proof.
   exists (0, 0), (-1), UDay. split; [unfold inst_norm; cbn; lia|].
   split; [unfold diff_guard; cbn; lia|]. vm_compute. discriminate.
 Qed.
+
+(* ------------------------------------------------------------------ calendar *)
+(* One 400-year era, day by day: the year-of-era, month and day computed by
+   cfd_local are in range, the day exists in that month, and dfc_local maps
+   them back to the day number.  146097 evaluations by vm_compute. *)
+Definition era_ok (doe : Z) : bool :=
+  let '(yoe, m, d) := cfd_local doe in
+  (0 <=? yoe) && (yoe <=? 399) && (1 <=? m) && (m <=? 12) && (1 <=? d)
+  && (d <=? days_in m (yoe + (if m <=? 2 then 1 else 0)))
+  && (dfc_local yoe m d =? doe).
+
+Definition era_sweep : bool :=
+  forallb (fun i => forallb (fun j => let doe := 1000 * i + j in
+                                      if doe <? 146097 then era_ok doe else true)
+                            (nat_seq_Z 1000 0))
+          (nat_seq_Z 147 0).
+
+Lemma era_sweep_true : era_sweep = true.
+Proof. vm_cast_no_check (eq_refl true). Qed.
+
+Lemma In_nat_seq_Z : forall n s z, s <= z < s + Z.of_nat n -> In z (nat_seq_Z n s).
+Proof.
+  induction n as [|n IH]; intros s z H; [lia|].
+  cbn [nat_seq_Z]. destruct (Z.eq_dec s z) as [E|E]; [left; exact E|].
+  right. apply IH. lia.
+Qed.
+
+Lemma era_all : forall doe, 0 <= doe < 146097 -> era_ok doe = true.
+Proof.
+  intros doe H. pose proof era_sweep_true as S. unfold era_sweep in S.
+  rewrite forallb_forall in S.
+  assert (Hi : In (doe / 1000) (nat_seq_Z 147 0)).
+  { apply In_nat_seq_Z. change (Z.of_nat 147) with 147. Z.to_euclidean_division_equations; lia. }
+  specialize (S _ Hi). rewrite forallb_forall in S.
+  assert (Hj : In (doe mod 1000) (nat_seq_Z 1000 0)).
+  { apply In_nat_seq_Z. change (Z.of_nat 1000) with 1000. Z.to_euclidean_division_equations; lia. }
+  specialize (S _ Hj). cbv zeta in S.
+  replace (1000 * (doe / 1000) + doe mod 1000) with doe in S
+    by (Z.to_euclidean_division_equations; lia).
+  destruct (doe <? 146097) eqn:E; [exact S|lia].
+Qed.
+
+Lemma is_leap_era : forall y e, is_leap (y + 400 * e) = is_leap y.
+Proof.
+  intros y e. unfold is_leap.
+  replace ((y + 400 * e) mod 4) with (y mod 4) by (Z.to_euclidean_division_equations; lia).
+  replace ((y + 400 * e) mod 100) with (y mod 100) by (Z.to_euclidean_division_equations; lia).
+  replace ((y + 400 * e) mod 400) with (y mod 400) by (Z.to_euclidean_division_equations; lia).
+  reflexivity.
+Qed.
+
+Lemma days_in_era : forall m y e, days_in m (y + 400 * e) = days_in m y.
+Proof. intros m y e. unfold days_in. rewrite is_leap_era. reflexivity. Qed.
+
+(* every day number, in every era: the civil date exists and maps back *)
+Theorem civil_roundtrip : forall z,
+  let '(y, m, d) := civil_from_days z in
+  days_from_civil y m d = z /\ 1 <= m <= 12 /\ 1 <= d <= days_in m y.
+Proof.
+  intros z. unfold civil_from_days.
+  set (z' := z + 719468). set (era := z' / 146097). set (doe := z' mod 146097).
+  assert (Hdoe : 0 <= doe < 146097) by (unfold doe; apply Z.mod_pos_bound; lia).
+  assert (Hz : z' = era * 146097 + doe)
+    by (unfold era, doe; Z.to_euclidean_division_equations; lia).
+  pose proof (era_all doe Hdoe) as OK. unfold era_ok in OK.
+  destruct (cfd_local doe) as [[yoe m] d].
+  set (c := if m <=? 2 then 1 else 0) in *.
+  assert (F : 0 <= yoe <= 399 /\ 1 <= m <= 12 /\ 1 <= d /\ d <= days_in m (yoe + c)
+              /\ dfc_local yoe m d = doe) by lia.
+  destruct F as (F1 & F2 & F3 & F4 & F5).
+  split; [|split; [exact F2|]].
+  - unfold days_from_civil. fold c.
+    replace (yoe + era * 400 + c - c) with (yoe + era * 400) by lia.
+    replace ((yoe + era * 400) / 400) with era by (Z.to_euclidean_division_equations; lia).
+    replace ((yoe + era * 400) mod 400) with yoe by (Z.to_euclidean_division_equations; lia).
+    rewrite F5. unfold z' in Hz. lia.
+  - replace (yoe + era * 400 + c) with ((yoe + c) + 400 * era) by lia.
+    rewrite days_in_era. lia.
+Qed.
